@@ -82,6 +82,10 @@ def encode(content, error=None, version=None, mode=None, mask=None,
                                 f'Proposal: version {get_version_name(guessed_version)}')
     if error is None and version != consts.VERSION_M1:
         error = consts.ERROR_LEVEL_L
+    # The length of the mode and character count indicators depends on the version:
+    # content which fits into a smaller (Micro) version may not fit into the requested one
+    if segments.bit_length_with_overhead(version, eci) > consts.SYMBOL_CAPACITY[version].get(error, 0):
+        raise DataOverflowError(f'The provided data does not fit into version "{get_version_name(version)}"')
     is_micro = version < 1
     mask = normalize_mask(mask, is_micro)
     return _encode(segments, error, version, mask, eci, boost_error)
